@@ -25,6 +25,15 @@ bool splinetable<Alloc>::searchcenters(const double* x, int* centers) const
 			continue;
 		} else if (x[i] >= knots[i][naxes[i]]) {
 			centers[i] = naxes[i]-1;
+			/*
+			 * The last fully supported point is evaluated from the
+			 * left, so if knots are repeated there it belongs to the
+			 * last interval of positive length.
+			 */
+			if (x[i] == knots[i][naxes[i]])
+				while (uint32_t(centers[i]) > order[i] &&
+				    knots[i][centers[i]] == knots[i][centers[i]+1])
+					centers[i]--;
 			continue;
 		}
 		
